@@ -21,7 +21,13 @@ var P = h.New("C02", "exploration",
 func TestMain(m *testing.M) { os.Exit(P.Main(m)) }
 func TestReplay(t *testing.T) { P.Replay(t) }
 
-var relKinds = []string{"parent", "sibling", "textext", "top", "child", "unrelated", "textcut"}
+var relKinds = []string{"parent", "sibling", "textext", "top", "child", "unrelated", "textcut", "lookalike", "lookalike"}
+
+// lookalike: one character of the command replaced by a DIFFERENT character that some notion of "the same" merges
+// with it: Unicode case-fold partners that are both lower case (σ/ς, µ/μ, s/ſ, θ/ϑ, k/K-as-kelvin is upper), a
+// precomposed letter and its decomposition, a Latin letter and its Cyrillic / Greek double, ASCII and full-width.
+// Different commands, byte for byte and character for character.
+var lookalikes = [][2]string{{"σ", "ς"}, {"ς", "σ"}, {"µ", "μ"}, {"μ", "µ"}, {"s", "ſ"}, {"ſ", "s"}, {"θ", "ϑ"}, {"ϑ", "θ"}, {"é", "e\u0301"}, {"a", "а"}, {"o", "ο"}, {"a", "ａ"}, {"b", "ƅ"}, {"f", "ｆ"}, {"r", "г"}}
 
 func rewrite(t *rapid.T, cur string, kind string) string {
 	segs := []string{}
@@ -35,6 +41,22 @@ func rewrite(t *rapid.T, cur string, kind string) string {
 		return "/" + strings.Join(s, "/")
 	}
 	switch kind {
+	case "lookalike":
+		var cands [][2]string
+		for _, p := range lookalikes {
+			if strings.Contains(cur, p[0]) {
+				cands = append(cands, p)
+			}
+		}
+		if len(cands) == 0 {
+			return cur
+		}
+		p := rapid.SampledFrom(cands).Draw(t, "lookalike")
+		i := strings.LastIndex(cur, p[0])
+		if rapid.Bool().Draw(t, "lookfirst") {
+			i = strings.Index(cur, p[0])
+		}
+		return cur[:i] + p[1] + cur[i+len(p[0]):]
 	case "parent":
 		if len(segs) == 0 {
 			return "/"
